@@ -176,7 +176,7 @@ theorem skipTo_none (pat : List UInt8) (l : Lexer) (h : indexOf pat l.rest = non
 theorem sq_case (b : Bool) (f : Nat) (l : Lexer) (P r : List Char) (ht : text = P ++ '\'' :: r)
     (hk : Tk file l P ('\'' :: r)) (hb : l.inPattern = b) :
     match scanSq r with
-    | none => (nextTokenLoop f (groundSQuote l)).2.errout ≠ []
+    | none => ∀ g, (nextTokenLoop g (groundSQuote l)).2.errout ≠ []
     | some (s, r') =>
       (nextTokenLoop (f + 1) (groundSQuote l)).1 = some (conv text file ⟨.sq s, text.length - (r.length + 1)⟩) ∧
       ∃ pre', text = pre' ++ r' ∧ Gnd file (nextTokenLoop (f + 1) (groundSQuote l)).2 pre' r' ∧
@@ -195,6 +195,7 @@ theorem sq_case (b : Bool) (f : Nat) (l : Lexer) (P r : List Char) (ht : text = 
     simp only
     rw [skipTo_none _ _ hidx]
     simp only [Bool.false_eq_true, if_false]
+    intro g
     apply nextTokenLoop_keeps
     show (errorfAt _ _ _ _).errout ≠ []
     exact errorfAt_errout _ _ _ _ (Or.inl c4.errcnt)
@@ -240,6 +241,490 @@ theorem sq_case (b : Bool) (f : Nat) (l : Lexer) (P r : List Char) (ht : text = 
       (by rw [setState_file, m5.file, f9]; exact hr3.file)
     refine ⟨q1, P ++ ['\''] ++ s ++ ['\''], by rw [ht, hsplit]; simp, q2, ?_⟩
     rw [q3, setState_inPattern, m5.inPattern, f10, u3.inPattern, c8, n5.inPattern]; exact hb
+
+theorem tcolAfter_quote (P : List Char) (r : List Char) (c : Char) (ht : text = P ++ c :: r) (hn : c ≠ '\n')
+    (htb : c ≠ '\t') :
+    tcolAfter (P ++ [c]) = ((quoteCol text (text.length - (r.length + 1)) : Nat) : Int) := by
+  have hoff : text.length - (r.length + 1) = P.length := by
+    rw [ht]; simp only [List.length_append, List.length_cons]; omega
+  have htake : text.take P.length = P := by rw [ht, List.take_left']; rfl
+  rw [tcolAfter_snoc, if_neg hn, if_neg htb, hoff]
+  unfold quoteCol tcolAfter
+  rw [htake]; push_cast; omega
+
+/-- a double-quoted string -/
+theorem dq_case (b : Bool) (f : Nat) (l : Lexer) (P r : List Char) (ht : text = P ++ '"' :: r)
+    (hk : Tk file l P ('"' :: r)) (hb : l.inPattern = b) :
+    match scanDq r with
+    | none => (nextTokenLoop (f + 1) (setState .qstring (next l).2)).2.errout ≠ []
+    | some (items, r') =>
+      (badEsc b ⟨.dq items, text.length - (r.length + 1)⟩ = true ∧
+        (nextTokenLoop (f + 1) (setState .qstring (next l).2)).2.errout ≠ []) ∨
+      (badEsc b ⟨.dq items, text.length - (r.length + 1)⟩ = false ∧
+        (nextTokenLoop (f + 2) (setState .qstring (next l).2)).1 =
+          some (conv text file ⟨.dq items, text.length - (r.length + 1)⟩) ∧
+        ∃ pre', text = pre' ++ r' ∧ Gnd file (nextTokenLoop (f + 2) (setState .qstring (next l).2)).2 pre' r' ∧
+          (nextTokenLoop (f + 2) (setState .qstring (next l).2)).2.inPattern = b) := by
+  obtain ⟨n1, n2, n3, _, n5⟩ := next_char l P r '"' hk.cur (hk.pos.posN _)
+  have hr1 : Ready file (next l).2 := n5.ready hk.ready
+  obtain ⟨l1, hl1⟩ : ∃ l1, l1 = setState .qstring (next l).2 := ⟨_, rfl⟩
+  rw [← hl1]
+  have hc1 : Cur l1 (P ++ ['"']) r := by rw [hl1]; exact ⟨n2.before, n2.rest, n2.line⟩
+  have hp1 : Pos l1 (P ++ ['"']) := by rw [hl1]; exact ⟨n3.col, n3.tcol⟩
+  have hready1 : Ready file l1 := by
+    rw [hl1]; exact ⟨hr1.items, hr1.errout, hr1.errcnt, hr1.fault, hr1.file⟩
+  have hpat1 : l1.inPattern = b := by rw [hl1, setState_inPattern, n5.inPattern]; exact hb
+  have hloop : ∀ g, nextTokenLoop (g + 1) l1 = nextTokenLoop g (lexQString l1) := fun g =>
+    nextTokenLoop_qstring g l1 hready1.items (by rw [hl1]; rfl)
+  have htc : l1.tcol = ((quoteCol text (text.length - (r.length + 1)) : Nat) : Int) := by
+    rw [hp1.tcol]; exact tcolAfter_quote text P r '"' ht (by decide) (by decide)
+  have hbadcase : DqBad l1.inPattern r → ∀ g, (nextTokenLoop (g + 1) l1).2.errout ≠ [] := by
+    intro hbad g
+    rw [hloop]
+    apply nextTokenLoop_keeps
+    unfold lexQString
+    exact qstringLoop_bad _ _ _ r.length r (Nat.le_refl _) _ [] true l1 _ hc1 (Or.inl hready1.errcnt)
+      (by rw [hc1.rest]; exact Nat.le_refl _) hbad
+  cases hs : scanDq r with
+  | none =>
+    simp only
+    exact hbadcase (Or.inl hs) f
+  | some p =>
+    obtain ⟨items, r'⟩ := p
+    simp only
+    obtain ⟨hsplit, hwf⟩ := scanDq_split r.length r (Nat.le_refl _) items r' hs
+    by_cases hbe : badEsc b ⟨.dq items, text.length - (r.length + 1)⟩ = true
+    · left
+      refine ⟨hbe, hbadcase (Or.inr ⟨items, r', hs, ?_, ?_⟩) f⟩
+      · rw [hpat1]
+        simp only [badEsc, Bool.and_eq_true, Bool.not_eq_eq_eq_not, Bool.not_true] at hbe
+        exact hbe.1
+      · simp only [badEsc, Bool.and_eq_true, Bool.not_eq_eq_eq_not, Bool.not_true] at hbe
+        exact hbe.2
+    · right
+      have hbe' : badEsc b ⟨.dq items, text.length - (r.length + 1)⟩ = false := by simpa using hbe
+      refine ⟨hbe', ?_⟩
+      have hpatok : l1.inPattern = true ∨ items.all validEsc = true := by
+        rw [hpat1]
+        simp only [badEsc, Bool.and_eq_false_iff, Bool.not_eq_eq_eq_not, Bool.not_true, Bool.not_false] at hbe'
+        rcases hbe' with h | h
+        · left; exact h
+        · right; exact h
+      obtain ⟨l', g1, g2, g3, g4⟩ := qstringLoop_good (quoteCol text (text.length - (r.length + 1))) l1.line
+        (l1.col - 1) r' items (l1.rest.length + 2) ⟨[], true, quoteCol text (text.length - (r.length + 1))⟩ l1
+        (P ++ ['"']) hwf (by rw [← hsplit]; exact hc1) hp1 (fun h => by cases h)
+        (by rw [hc1.rest, hsplit]; omega) hpatok
+      have hlq : lexQString l1 = setState .ground (emitText .string
+          (encodeChars (implValue (quoteCol text (text.length - (r.length + 1))) items)) l') := by
+        unfold lexQString
+        rw [htc]
+        exact g1
+      rw [hloop, hlq]
+      have hr' : Ready file l' := g4.ready hready1
+      obtain ⟨e1, e2, e3, e4, e5, e6, e7, e8, e9, e10, e11, e12⟩ :=
+        emitted .string (encodeChars (implValue (quoteCol text (text.length - (r.length + 1))) items)) l' hr'.items
+      have htok : Token.mk Code.string
+          (encodeChars (implValue (quoteCol text (text.length - (r.length + 1))) items)) l'.file l'.sline
+          (l'.scol + 1) = conv text file ⟨.dq items, text.length - (r.length + 1)⟩ := by
+        rw [← tok_eq text file P r '"' ht (.dq items) _ _
+          (g4.sline.trans (by rw [hl1]; exact n5.sline.trans hk.sline))
+          (g4.scol.trans (by rw [hl1]; exact n5.scol.trans hk.scol)), hr'.file]
+        rfl
+      rw [htok] at e1
+      obtain ⟨q1, q2, q3⟩ := finish file f _ _ (P ++ ['"'] ++ (itemsChars items ++ ['"'])) r' e1 e2
+        ⟨e3.trans g2.before, e4.trans g2.rest, e5.trans g2.line⟩ (posN_of_fields (g3.posN r') e6 e7)
+        (e8.trans hr'.errout) (e9.trans hr'.errcnt) (e10.trans hr'.fault) (e11.trans hr'.file)
+      exact ⟨q1, P ++ ['"'] ++ (itemsChars items ++ ['"']), by rw [ht, hsplit]; simp, q2,
+        by rw [q3, e12, g4.inPattern]; exact hpat1⟩
+
+theorem dropWhile_head_delim (r : List Char) : ∀ d t, r.dropWhile (fun x => !isDelim x) = d :: t → isDelim d = true := by
+  intro d t h
+  have := List.head?_dropWhile_not (fun x => !isDelim x) r
+  rw [h] at this
+  simpa using this
+
+theorem takeWhile_nondelim (r : List Char) : ∀ x ∈ r.takeWhile (fun x => !isDelim x), isDelim x = false := by
+  intro x hx
+  have := mem_takeWhile_pos (fun x => !isDelim x) r x hx
+  simpa using this
+
+/-- an unquoted token: the lexer is in the state `lexUnquoted` having read `tk` of it -/
+theorem unq_finish (b : Bool) (f : Nat) (l2 : Lexer) (P tk rest0 : List Char) (c : Char) (r : List Char)
+    (ht : text = P ++ c :: r) (hcr : c :: r = tk ++ rest0)
+    (hc : Cur l2 (P ++ tk) rest0) (hp : PosN l2 (P ++ tk) rest0) (hst : l2.start = (encodeChars P).length)
+    (hsl : l2.sline = lineAfter P) (hsc : l2.scol = colAfter P) (hr : Ready file l2) (hs : l2.state = .unquoted)
+    (hb : l2.inPattern = b) :
+    (nextTokenLoop (f + 2) l2).1 = some (conv text file
+      ⟨.unq (tk ++ rest0.takeWhile (fun x => !isDelim x)), text.length - (r.length + 1)⟩) ∧
+    ∃ pre', text = pre' ++ rest0.dropWhile (fun x => !isDelim x) ∧
+      Gnd file (nextTokenLoop (f + 2) l2).2 pre' (rest0.dropWhile (fun x => !isDelim x)) ∧
+      (nextTokenLoop (f + 2) l2).2.inPattern = b := by
+  rw [nextTokenLoop_unquoted _ l2 hr.items hs]
+  have hsplit : rest0 = rest0.takeWhile (fun x => !isDelim x) ++ rest0.dropWhile (fun x => !isDelim x) :=
+    List.takeWhile_append_dropWhile.symm
+  obtain ⟨l', h1, h2, h3, h4⟩ := unquotedLoop_chars P (rest0.dropWhile (fun x => !isDelim x))
+    (dropWhile_head_delim rest0) (rest0.takeWhile (fun x => !isDelim x)) (takeWhile_nondelim rest0)
+    (l2.rest.length + 1) l2 tk (by rw [← hsplit]; exact hc) (by rw [← hsplit]; exact hp) hst
+    (by rw [hc.rest, ← hsplit]; exact Nat.le_refl _)
+  unfold lexUnquoted
+  rw [h1]
+  have hr' : Ready file l' := h4.ready hr
+  obtain ⟨e1, e2, e3, e4, e5, e6, e7, e8, e9, e10, e11, e12⟩ :=
+    emitted .unquoted (encodeChars (tk ++ rest0.takeWhile (fun x => !isDelim x))) l' hr'.items
+  have htok : Token.mk Code.unquoted (encodeChars (tk ++ rest0.takeWhile (fun x => !isDelim x))) l'.file l'.sline
+      (l'.scol + 1) = conv text file
+        ⟨.unq (tk ++ rest0.takeWhile (fun x => !isDelim x)), text.length - (r.length + 1)⟩ := by
+    rw [← tok_eq text file P r c ht (.unq _) _ _ (h4.sline.trans hsl) (h4.scol.trans hsc), hr'.file]
+    rfl
+  rw [htok] at e1
+  obtain ⟨q1, q2, q3⟩ := finish file f _ _ (P ++ (tk ++ rest0.takeWhile (fun x => !isDelim x)))
+    (rest0.dropWhile (fun x => !isDelim x)) e1 e2 ⟨e3.trans h2.before, e4.trans h2.rest, e5.trans h2.line⟩
+    (posN_of_fields h3 e6 e7) (e8.trans hr'.errout) (e9.trans hr'.errcnt) (e10.trans hr'.fault)
+    (e11.trans hr'.file)
+  refine ⟨q1, P ++ (tk ++ rest0.takeWhile (fun x => !isDelim x)), ?_, q2, by rw [q3, e12, h4.inPattern]; exact hb⟩
+  rw [ht, hcr, List.append_assoc, List.append_assoc]
+  congr 2
+
+theorem pos_of_posN {l : Lexer} {P r : List Char} {c : Char} (h : PosN l P (c :: r)) (h1 : c ≠ '\n')
+    (h2 : c ≠ '\t') : Pos l P := by
+  unfold PosN at h
+  split at h
+  · rename_i heq; simp only [List.cons.injEq] at heq; exact absurd heq.1 h1
+  · rename_i heq; simp only [List.cons.injEq] at heq; exact absurd heq.1 h2
+  · exact h
+
+theorem groundSlash_line (l : Lexer) (h : (peek (next l).2).1 = 47) :
+    groundSlash l = if (skipTo [10] (peek (next l).2).2).1 then setState .ground (skipTo [10] (peek (next l).2).2).2
+      else setState .done (errorfAt (skipTo [10] (peek (next l).2).2).2.line
+        ((skipTo [10] (peek (next l).2).2).2.col - 1) .noNewline (skipTo [10] (peek (next l).2).2).2) := by
+  unfold groundSlash
+  simp only [h, if_true]
+
+theorem groundSlash_block (l : Lexer) (h : (peek (next l).2).1 = 42) :
+    groundSlash l =
+      if (skipTo [42, 47] (next (peek (next l).2).2).2).1 then
+        setState .ground (next (next (skipTo [42, 47] (next (peek (next l).2).2).2).2).2).2
+      else setState .done (errorfAt (skipTo [42, 47] (next (peek (next l).2).2).2).2.line
+        ((skipTo [42, 47] (next (peek (next l).2).2).2).2.col - 2) .missingCommentEnd
+        (skipTo [42, 47] (next (peek (next l).2).2).2).2) := by
+  unfold groundSlash
+  simp only [h, if_true]
+  simp
+
+theorem groundSlash_tok (l : Lexer) (h1 : (peek (next l).2).1 ≠ 47) (h2 : (peek (next l).2).1 ≠ 42) :
+    groundSlash l = setState .unquoted (peek (next l).2).2 := by
+  unfold groundSlash
+  simp only [h1, h2, if_false]
+
+/-- `// …`: the lexer is back in the ground state at the end of the line -/
+theorem line_comment (l : Lexer) (P s r2 : List Char) (hk : Tk file l P ('/' :: '/' :: (s ++ '\n' :: r2)))
+    (hs : '\n' ∉ s) :
+    Gnd file (groundSlash l) (P ++ ['/'] ++ ('/' :: s)) ('\n' :: r2) ∧ (groundSlash l).inPattern = l.inPattern := by
+  obtain ⟨n1, n2, n3, _, n5⟩ := next_char l P _ '/' hk.cur (hk.pos.posN _)
+  obtain ⟨p1, p2, p3, p4⟩ := peek_char (next l).2 _ _ '/' n2 (n3.posN _)
+  have hpos : Pos (peek (next l).2).2 (P ++ ['/']) := pos_of_posN p3 (by decide) (by decide)
+  have hidx : indexOf [10] (peek (next l).2).2.rest = some (encodeChars ('/' :: s)).length := by
+    rw [p2.rest]
+    exact indexOf_char '\n' (by decide) ('/' :: s) r2 (by
+      simp only [List.mem_cons, not_or]; exact ⟨by decide, hs⟩)
+  obtain ⟨u1, u2, u3⟩ := updateCursor_chars (peek (next l).2).2 (P ++ ['/']) ('/' :: s) ('\n' :: r2)
+    p2 hpos
+  have hg : groundSlash l = setState .ground (updateCursor (encodeChars ('/' :: s)).length (peek (next l).2).2) := by
+    rw [groundSlash_line l (by rw [p1]; rfl), skipTo_found _ _ _ hidx]
+    rfl
+  rw [hg]
+  have hfr := (n5.trans p4).trans u3
+  obtain ⟨l2, hl2⟩ : ∃ l2, l2 = updateCursor (encodeChars ('/' :: s)).length (peek (next l).2).2 := ⟨_, rfl⟩
+  rw [← hl2] at u1 u2 u3 hfr ⊢
+  refine ⟨⟨⟨?_, ?_, ?_⟩, ?_, ⟨?_, ?_, ?_, ?_, ?_⟩, setState_state _ _⟩, ?_⟩
+  · rw [setState_before]; exact u1.before
+  · rw [setState_rest]; exact u1.rest
+  · rw [setState_line]; exact u1.line
+  · exact posN_of_fields (u2.posN _) (setState_col _ _) (setState_tcol _ _)
+  · rw [setState_items]; exact hfr.items.trans hk.ready.items
+  · rw [setState_errout]; exact hfr.errout.trans hk.ready.errout
+  · rw [setState_errcnt]; exact hfr.errcnt.trans hk.ready.errcnt
+  · rw [setState_fault]; exact hfr.fault.trans hk.ready.fault
+  · rw [setState_file]; exact hfr.file.trans hk.ready.file
+  · rw [setState_inPattern]; exact hfr.inPattern
+
+/-- `/* … */` -/
+theorem block_comment (l : Lexer) (P r1 : List Char) (hk : Tk file l P ('/' :: '*' :: r1)) :
+    match findSS r1 with
+    | none => (groundSlash l).errout ≠ []
+    | some (s, r2) =>
+      Gnd file (groundSlash l) (P ++ ['/', '*'] ++ s ++ ['*', '/']) r2 ∧ (groundSlash l).inPattern = l.inPattern := by
+  obtain ⟨n1, n2, n3, _, n5⟩ := next_char l P _ '/' hk.cur (hk.pos.posN _)
+  obtain ⟨p1, p2, p3, p4⟩ := peek_char (next l).2 _ _ '*' n2 (n3.posN _)
+  obtain ⟨m1, m2, m3, _, m5⟩ := next_char (peek (next l).2).2 _ _ '*' p2 p3
+  obtain ⟨l3, hl3⟩ : ∃ l3, l3 = (next (peek (next l).2).2).2 := ⟨_, rfl⟩
+  rw [← hl3] at m2 m3 m5
+  have hfr3 : Frame l l3 := (n5.trans p4).trans m5
+  have hidx := indexOf_ss r1.length r1 (Nat.le_refl _)
+  cases hf : findSS r1 with
+  | none =>
+    simp only
+    rw [hf] at hidx
+    have hg : groundSlash l = setState .done (errorfAt l3.line (l3.col - 2) .missingCommentEnd l3) := by
+      rw [groundSlash_block l (by rw [p1]; rfl), ← hl3, skipTo_none _ _ (by rw [m2.rest]; exact hidx)]
+      rfl
+    rw [hg]
+    exact errorfAt_errout _ _ _ _ (Or.inl (hfr3.errcnt.trans hk.ready.errcnt))
+  | some p =>
+    obtain ⟨s, r2⟩ := p
+    simp only
+    rw [hf] at hidx
+    have hsplit := findSS_split r1.length r1 (Nat.le_refl _) s r2 hf
+    obtain ⟨u1, u2, u3⟩ := updateCursor_chars l3 (P ++ ['/'] ++ ['*']) s ('*' :: '/' :: r2)
+      (by rw [← hsplit]; exact m2) m3
+    obtain ⟨l4, hl4⟩ : ∃ l4, l4 = updateCursor (encodeChars s).length l3 := ⟨_, rfl⟩
+    rw [← hl4] at u1 u2 u3
+    obtain ⟨a1, a2, a3, _, a5⟩ := next_char l4 _ _ '*' u1 (u2.posN _)
+    obtain ⟨b1, b2, b3, _, b5⟩ := next_char (next l4).2 _ _ '/' a2 (a3.posN _)
+    have hg : groundSlash l = setState .ground (next (next l4).2).2 := by
+      rw [groundSlash_block l (by rw [p1]; rfl), ← hl3, skipTo_found _ _ _ (by rw [m2.rest]; exact hidx), ← hl4]
+      rfl
+    rw [hg]
+    have hfr := ((hfr3.trans u3).trans a5).trans b5
+    obtain ⟨l6, hl6⟩ : ∃ l6, l6 = (next (next l4).2).2 := ⟨_, rfl⟩
+    rw [← hl6] at b2 b3 hfr ⊢
+    have hP : P ++ ['/', '*'] ++ s ++ ['*', '/'] = P ++ ['/'] ++ ['*'] ++ s ++ ['*'] ++ ['/'] := by simp
+    rw [hP]
+    refine ⟨⟨⟨?_, ?_, ?_⟩, ?_, ⟨?_, ?_, ?_, ?_, ?_⟩, setState_state _ _⟩, ?_⟩
+    · rw [setState_before]; exact b2.before
+    · rw [setState_rest]; exact b2.rest
+    · rw [setState_line]; exact b2.line
+    · exact posN_of_fields (b3.posN _) (setState_col _ _) (setState_tcol _ _)
+    · rw [setState_items]; exact hfr.items.trans hk.ready.items
+    · rw [setState_errout]; exact hfr.errout.trans hk.ready.errout
+    · rw [setState_errcnt]; exact hfr.errcnt.trans hk.ready.errcnt
+    · rw [setState_fault]; exact hfr.fault.trans hk.ready.fault
+    · rw [setState_file]; exact hfr.file.trans hk.ready.file
+    · rw [setState_inPattern]; exact hfr.inPattern
+
+theorem groundPlus_quote (l : Lexer) (h : (peek (next l).2).1 = 34 ∨ (peek (next l).2).1 = 39) :
+    groundPlus l = setState .ground (emit .unquoted (peek (next l).2).2) := by
+  unfold groundPlus
+  rcases h with h | h <;> simp [h]
+
+theorem groundPlus_tok (l : Lexer) (h1 : (peek (next l).2).1 ≠ 34) (h2 : (peek (next l).2).1 ≠ 39) :
+    groundPlus l = setState .unquoted (peek (next l).2).2 := by
+  unfold groundPlus
+  simp [h1, h2]
+
+/-- `+` directly before a quote is a token of its own -/
+theorem plus_quote (b : Bool) (f : Nat) (l : Lexer) (P r' : List Char) (q : Char) (hq : q = '"' ∨ q = '\'')
+    (ht : text = P ++ '+' :: q :: r') (hk : Tk file l P ('+' :: q :: r')) (hb : l.inPattern = b) :
+    (nextTokenLoop (f + 1) (groundPlus l)).1 =
+      some (conv text file ⟨.unq ['+'], text.length - ((q :: r').length + 1)⟩) ∧
+    ∃ pre', text = pre' ++ q :: r' ∧ Gnd file (nextTokenLoop (f + 1) (groundPlus l)).2 pre' (q :: r') ∧
+      (nextTokenLoop (f + 1) (groundPlus l)).2.inPattern = b := by
+  obtain ⟨n1, n2, n3, _, n5⟩ := next_char l P _ '+' hk.cur (hk.pos.posN _)
+  obtain ⟨p1, p2, p3, p4⟩ := peek_char (next l).2 _ _ q n2 (n3.posN _)
+  obtain ⟨l2, hl2⟩ : ∃ l2, l2 = (peek (next l).2).2 := ⟨_, rfl⟩
+  rw [← hl2] at p2 p3 p4
+  have hfr : Frame l l2 := n5.trans p4
+  have hr2 : Ready file l2 := hfr.ready hk.ready
+  have hg : groundPlus l = setState .ground (emitText .unquoted (encodeChars ['+']) l2) := by
+    rw [groundPlus_quote l (by
+      rw [p1]; rcases hq with h | h
+      · left; rw [h]; rfl
+      · right; rw [h]; rfl), ← hl2]
+    rw [emit_eq .unquoted l2 P ['+'] (q :: r') p2 (by rw [hfr.start]; exact hk.start)]
+  rw [hg]
+  obtain ⟨e1, e2, e3, e4, e5, e6, e7, e8, e9, e10, e11, e12⟩ := emitted .unquoted (encodeChars ['+']) l2 hr2.items
+  have htok : Token.mk Code.unquoted (encodeChars ['+']) l2.file l2.sline (l2.scol + 1) =
+      conv text file ⟨.unq ['+'], text.length - ((q :: r').length + 1)⟩ := by
+    rw [← tok_eq text file P (q :: r') '+' ht (.unq ['+']) _ _ (hfr.sline.trans hk.sline)
+      (hfr.scol.trans hk.scol), hr2.file]
+    rfl
+  rw [htok] at e1
+  obtain ⟨q1, q2, q3⟩ := finish file f _ _ (P ++ ['+']) (q :: r') e1 e2
+    ⟨e3.trans p2.before, e4.trans p2.rest, e5.trans p2.line⟩ (posN_of_fields p3 e6 e7)
+    (e8.trans hr2.errout) (e9.trans hr2.errcnt) (e10.trans hr2.fault) (e11.trans hr2.file)
+  exact ⟨q1, P ++ ['+'], by rw [ht]; simp, q2, by rw [q3, e12, hfr.inPattern]; exact hb⟩
+
+/-! ### the dispatch of `lexGround` -/
+
+theorem lexGround_eof (l : Lexer) (h : (peek (groundStart l)).1 = eofRune) :
+    lexGround l = setState .done (peek (groundStart l)).2 := by
+  unfold lexGround; simp only [h, if_true]
+
+theorem lexGround_punct (l : Lexer) (h0 : (peek (groundStart l)).1 ≠ eofRune)
+    (h : (peek (groundStart l)).1 = 59 ∨ (peek (groundStart l)).1 = 123 ∨ (peek (groundStart l)).1 = 125) :
+    lexGround l = setState .ground (emit (.punct (UInt8.ofNat (peek (groundStart l)).1))
+      (next (peek (groundStart l)).2).2) := by
+  unfold lexGround
+  simp only [h0, if_false]
+  rcases h with h | h | h <;> simp [h]
+
+theorem lexGround_sq (l : Lexer) (h : (peek (groundStart l)).1 = 39) :
+    lexGround l = groundSQuote (peek (groundStart l)).2 := by
+  unfold lexGround; simp [h, eofRune]
+
+theorem lexGround_dq (l : Lexer) (h : (peek (groundStart l)).1 = 34) :
+    lexGround l = setState .qstring (next (peek (groundStart l)).2).2 := by
+  unfold lexGround; simp [h, eofRune]
+
+theorem lexGround_slash (l : Lexer) (h : (peek (groundStart l)).1 = 47) :
+    lexGround l = groundSlash (peek (groundStart l)).2 := by
+  unfold lexGround; simp [h, eofRune]
+
+theorem lexGround_plus (l : Lexer) (h : (peek (groundStart l)).1 = 43) :
+    lexGround l = groundPlus (peek (groundStart l)).2 := by
+  unfold lexGround; simp [h, eofRune]
+
+theorem lexGround_other (l : Lexer) (h0 : (peek (groundStart l)).1 ≠ eofRune)
+    (h1 : (peek (groundStart l)).1 ≠ 59) (h2 : (peek (groundStart l)).1 ≠ 123)
+    (h3 : (peek (groundStart l)).1 ≠ 125) (h4 : (peek (groundStart l)).1 ≠ 39)
+    (h5 : (peek (groundStart l)).1 ≠ 34) (h6 : (peek (groundStart l)).1 ≠ 47)
+    (h7 : (peek (groundStart l)).1 ≠ 43) :
+    lexGround l = setState .unquoted (peek (groundStart l)).2 := by
+  unfold lexGround
+  simp only [h0, h1, h2, h3, h4, h5, h6, h7, if_false, Bool.or_self, Bool.false_eq_true, decide_false]
+
+/-! ### the reference reader's next token, by first character -/
+
+theorem specNext_nil : specNext text.length [] = some none := by
+  simp [specNext, specNextG, skipGround]
+
+theorem specNext_tok (c : Char) (r : List Char) (hs : isSpace c = false) (hc : c ≠ '/') :
+    specNext text.length (c :: r) = specNextG text.length (some (c :: r)) := by
+  unfold specNext; rw [skipGround_token c r hs hc]
+
+theorem takeWhile_cons_nondelim (c : Char) (r : List Char) (h : isDelim c = false) :
+    (c :: r).takeWhile (fun x => !isDelim x) = c :: r.takeWhile (fun x => !isDelim x) ∧
+    (c :: r).dropWhile (fun x => !isDelim x) = r.dropWhile (fun x => !isDelim x) := by
+  simp [List.takeWhile_cons, List.dropWhile_cons, h]
+
+theorem encodeChars_length_append (a b : List Char) :
+    (encodeChars (a ++ b)).length = (encodeChars a).length + (encodeChars b).length := by
+  rw [encodeChars_append, List.length_append]
+
+theorem encodeChars_length_ge (a : List Char) : a.length ≤ (encodeChars a).length := by
+  induction a with
+  | nil => simp [encodeChars]
+  | cons c r ih =>
+    rw [encodeChars_cons, List.length_append, List.length_cons]
+    have := encChar_length_pos c
+    omega
+
+/-- **(d)** `NextToken` from the ground state against the next token of the reference reader -/
+theorem ground_sim : ∀ (n : Nat) (suf : List Char), suf.length ≤ n → ∀ (pre : List Char) (l : Lexer) (f : Nat),
+    text = pre ++ suf → Gnd file l pre suf → EndsNL suf → (encodeChars suf).length + 3 ≤ f →
+    Outcome text file l.inPattern suf (nextTokenLoop f l) := by
+  intro n
+  induction n using Nat.strongRecOn with
+  | _ n ih =>
+    intro suf hn pre l f ht hg hnl hf
+    obtain ⟨f, rfl⟩ : ∃ f', f = f' + 1 := ⟨f - 1, by omega⟩
+    rw [nextTokenLoop_ground f l hg.ready.items hg.state]
+    -- the white space in front
+    obtain ⟨bl, hbl⟩ : ∃ bl, bl = suf.takeWhile isSpace := ⟨_, rfl⟩
+    obtain ⟨suf', hsuf'⟩ : ∃ suf', suf' = suf.dropWhile isSpace := ⟨_, rfl⟩
+    have hsplit : suf = bl ++ suf' := by rw [hbl, hsuf']; exact List.takeWhile_append_dropWhile.symm
+    have hblsp : ∀ x ∈ bl, isSpace x = true := by
+      intro x hx; rw [hbl] at hx; exact mem_takeWhile_pos isSpace suf x hx
+    have hhead : ∀ c r, suf' = c :: r → isSpace c = false := by
+      intro c r h
+      have := List.head?_dropWhile_not isSpace suf
+      rw [← hsuf', h] at this
+      simpa using this
+    obtain ⟨g1, g2, g3, g4, g5, g6⟩ := groundStart_chars l pre bl suf' hblsp hhead (by rw [← hsplit]; exact hg.cur)
+      (by rw [← hsplit]; exact hg.posn)
+    apply Outcome_congr text file _ suf suf' _ (by rw [hsplit]; exact skipGround_blanks bl suf' hblsp)
+    have htext : text = (pre ++ bl) ++ suf' := by rw [ht, hsplit]; simp
+    have hready0 : Ready file (groundStart l) := g6.ready hg.ready
+    have hnl' : EndsNL suf' := by rw [hsplit] at hnl; exact hnl.suffix
+    have hlen' : (encodeChars suf').length ≤ (encodeChars suf).length := by
+      rw [hsplit, encodeChars_length_append]; omega
+    have hslen : suf'.length ≤ suf.length := by rw [hsplit]; simp
+    cases hs' : suf' with
+    | nil =>
+      -- nothing but white space is left
+      rw [hs'] at g1
+      obtain ⟨p1, p2, p3, p4, p5⟩ := peek_eof (groundStart l) _ g1
+      rw [lexGround_eof l p1]
+      obtain ⟨f, rfl⟩ : ∃ f', f = f' + 1 := ⟨f - 1, by omega⟩
+      have hr1 : Ready file (peek (groundStart l)).2 := p5.ready hready0
+      rw [nextTokenLoop_done f _ (by rw [setState_items]; exact hr1.items) (setState_state _ _)]
+      unfold Outcome
+      rw [specNext_nil]
+      exact ⟨rfl, setState_state _ _, ⟨hr1.items, hr1.errout, hr1.errcnt, hr1.fault, hr1.file⟩,
+        by rw [setState_inPattern, p5.inPattern, g6.inPattern]⟩
+    | cons c r =>
+      rw [hs'] at g1 htext hnl' hlen' hslen
+      have hcs : isSpace c = false := hhead c r hs'
+      have hcn : c ≠ '\n' := by intro h; rw [h] at hcs; simp [isSpace] at hcs
+      have hct : c ≠ '\t' := by intro h; rw [h] at hcs; simp [isSpace] at hcs
+      obtain ⟨p1, p2, p3, p4⟩ := peek_char (groundStart l) _ r c g1 (g2.posN _)
+      obtain ⟨l1, hl1⟩ : ∃ l1, l1 = (peek (groundStart l)).2 := ⟨_, rfl⟩
+      rw [← hl1] at p2 p3 p4
+      have hk : Tk file l1 (pre ++ bl) (c :: r) :=
+        ⟨p2, pos_of_posN p3 hcn hct, p4.start.trans g3, p4.sline.trans g4, p4.scol.trans g5, p4.ready hready0,
+         p4.state.trans (g6.state.trans hg.state)⟩
+      have hpat1 : l1.inPattern = l.inPattern := p4.inPattern.trans g6.inPattern
+      have hne0 : (peek (groundStart l)).1 ≠ eofRune := by rw [p1]; exact char_ne_eof c
+      have k (d : Char) : (peek (groundStart l)).1 = d.toNat ↔ c = d := by rw [p1]; exact toNat_eq_iff c d
+      have hfuel : (encodeChars r).length + 3 ≤ f := by
+        have := encodeChars_length_cons c r
+        omega
+      by_cases hsemi : c = ';' ∨ c = '{' ∨ c = '}'
+      · -- punctuation
+        have hp : (peek (groundStart l)).1 = 59 ∨ (peek (groundStart l)).1 = 123 ∨ (peek (groundStart l)).1 = 125 := by
+          rcases hsemi with h | h | h
+          · exact Or.inl ((k ';').2 h)
+          · exact Or.inr (Or.inl ((k '{').2 h))
+          · exact Or.inr (Or.inr ((k '}').2 h))
+        rw [lexGround_punct l hne0 hp, ← hl1, p1]
+        obtain ⟨f, rfl⟩ : ∃ f', f = f' + 1 := ⟨f - 1, by omega⟩
+        have hslash : c ≠ '/' := by rcases hsemi with h | h | h <;> (rw [h]; decide)
+        unfold Outcome
+        rw [specNext_tok text c r hcs hslash]
+        rcases hsemi with h | h | h
+        · obtain ⟨q1, q2⟩ := punct_case text file l.inPattern f l1 (pre ++ bl) r c htext hk hpat1 .semi (Or.inl ⟨h, rfl⟩)
+          have : specNextG text.length (some (c :: r)) = some (some (⟨.semi, text.length - (r.length + 1)⟩, r)) := by
+            simp [specNextG, h]
+          rw [this]
+          exact Or.inr ⟨by simp [badEsc], q1, q2⟩
+        · obtain ⟨q1, q2⟩ := punct_case text file l.inPattern f l1 (pre ++ bl) r c htext hk hpat1 .lbrace
+            (Or.inr (Or.inl ⟨h, rfl⟩))
+          have : specNextG text.length (some (c :: r)) = some (some (⟨.lbrace, text.length - (r.length + 1)⟩, r)) := by
+            simp [specNextG, h]
+          rw [this]
+          exact Or.inr ⟨by simp [badEsc], q1, q2⟩
+        · obtain ⟨q1, q2⟩ := punct_case text file l.inPattern f l1 (pre ++ bl) r c htext hk hpat1 .rbrace
+            (Or.inr (Or.inr ⟨h, rfl⟩))
+          have : specNextG text.length (some (c :: r)) = some (some (⟨.rbrace, text.length - (r.length + 1)⟩, r)) := by
+            simp [specNextG, h]
+          rw [this]
+          exact Or.inr ⟨by simp [badEsc], q1, q2⟩
+      · have hn1 : c ≠ ';' := fun h => hsemi (Or.inl h)
+        have hn2 : c ≠ '{' := fun h => hsemi (Or.inr (Or.inl h))
+        have hn3 : c ≠ '}' := fun h => hsemi (Or.inr (Or.inr h))
+        by_cases hsq : c = '\''
+        · -- single-quoted string
+          subst hsq
+          rw [lexGround_sq l ((k '\'').2 rfl), ← hl1]
+          obtain ⟨f, rfl⟩ : ∃ f', f = f' + 1 := ⟨f - 1, by omega⟩
+          have hcase := sq_case text file l.inPattern f l1 (pre ++ bl) r htext hk hpat1
+          unfold Outcome
+          rw [specNext_tok text '\'' r hcs (by decide)]
+          cases hsc : scanSq r with
+          | none =>
+            rw [hsc] at hcase
+            have : specNextG text.length (some ('\'' :: r)) = none := by simp [specNextG, hsc]
+            rw [this]
+            simp only at hcase ⊢
+            exact hcase _
+          | some p =>
+            obtain ⟨s0, r'⟩ := p
+            rw [hsc] at hcase
+            have : specNextG text.length (some ('\'' :: r)) =
+                some (some (⟨.sq s0, text.length - (r.length + 1)⟩, r')) := by simp [specNextG, hsc]
+            rw [this]
+            exact Or.inr ⟨by simp [badEsc], hcase.1, hcase.2⟩
+        · sorry
 
 end
 
